@@ -27,6 +27,10 @@ CHECKS = {
    "The full configuration grid (16 sizes x legacy/modern x 8 flag sets x in-use x 7 max-size answers x 3 DMA fault points = 10752 configurations) is enumerated on every run and a generator adds random device-address bases; geometry, containment in live DMA memory of a permitting direction, zeroed rings, refusal without side effects and exact release are computed independently of the crate.",
    "Trusted: ledger Hal and model transport. The grid is exhaustive; device-address bases are sampled.",
    "exhaustive configuration enumeration + proptest on address bases, geometry oracle"),
+ "C07": ("hostile-device", "exploration", "4 C07",
+   "A chaotic reference device (wrong/repeated/never-issued used ids, oversize and huge lengths, index jumps, duplicate and withheld completions, arbitrary or plausible response bytes and configuration values, scribbling over driver-owned queue areas) against 13 targets, driven (a) by proptest over a byte-script decoder in both build profiles with a ledger Hal, an allocator interposer (posted heap block freed while the device is live) and a dead-stack-frame check, and (b) by libFuzzer with AddressSanitizer over the same decoder (out-of-bounds / use-after-free become crashes). Differential: every well-behaved history of the other driver checks is run clean and with the device overwriting the descriptor table and available ring after each fetch; outcomes must be identical.",
+   "Trusted: chaotic device keeps eventually completing (blocking calls can end); caller honours the unsafe contracts; spin-budget exhaustion, timeouts and OOM are exit 2. Two recorded open findings are excluded by signature and counted.",
+   "proptest + coverage-guided libFuzzer/ASan over one byte decoder; ledger/allocator-interposer/ASan oracles; differential clean vs scribbled run"),
  "C08": ("driver-sim", "exploration", "4 C08",
    "All 11 constructors x 5 transports x every subset of the feature bits the driver inspects (alone and with unsupported noise bits, plus all-ones; random 64-bit sets on top): an automaton over the ordered transport trace checks reset -> ACKNOWLEDGE|DRIVER -> feature read -> accepted subset of offered and implemented, VERSION_1 iff offered, no ring-format bits -> FEATURES_OK -> queues -> DRIVER_OK and no notification before DRIVER_OK; a short usage phase on the driver's reference device judges the feature-gated behaviour (indirect descriptors, flush, console size/emergency write, EDID, net header size).",
    "Trusted: transport models map register writes to the same abstract events; 'supports' = each driver's current SUPPORTED_FEATURES. Subsets of inspected bits are enumerated completely; arbitrary 64-bit sets are sampled.",
@@ -100,6 +104,8 @@ def main():
             "add_only": True,
         },
         "engines": [
+            {"name": "hostile-device", "path": "harness/src/props/c07.rs", "serves_properties": ["C07"],
+             "kind_free_text": "chaotic reference device + API exercisers for 13 targets; proptest (two profiles) and cargo-fuzz/libFuzzer+ASan (harness/fuzz) over the same decoder; differential scribble runs"},
             {"name": "driver-sim", "path": "harness/src/devq.rs", "serves_properties": ["C08", "C09", "C14", "C15", "C16", "C17", "C18", "C19", "C20"],
              "kind_free_text": "complete drivers on model/MMIO/PCI transports against spec-level reference devices with OnNotify/Poll/Late servicing policies and spin-hook lost-wake-up detection"},
             {"name": "mmio-trace", "path": "harness/src/props/c10.rs", "serves_properties": ["C10"],
